@@ -195,7 +195,7 @@ def battery_msg(b: dict) -> Any:
     return BatteryDataWrapper(
         b["id"], T0 + timedelta(seconds=b.get("ts", b["id"])),
         soc=q("50") if ok else NAN, soc_lower_bound=q("10") if ok else NAN, soc_upper_bound=q("90") if ok else NAN,
-        capacity=q("1000") if ok else NAN,
+        capacity=q(b.get("cap", "1000")) if ok else NAN,     # "cap": "0" = a battery that reports no capacity
         power_inclusion_lower_bound=q(b["il"]), power_exclusion_lower_bound=q(b["el"]),
         power_exclusion_upper_bound=q(b["eu"]), power_inclusion_upper_bound=q(b["iu"]),
     )
@@ -300,11 +300,20 @@ def run_c17_impl(bats: list[dict], invs: list[dict], edges: list[tuple[int, int]
         b = mgr._get_bounds(pairs)  # pylint: disable=protected-access
         out["enf"] = bounds_json(b.inclusion_lower, b.exclusion_lower, b.exclusion_upper, b.inclusion_upper)
         alg = mgr._distribution_algorithm  # pylint: disable=protected-access
-        minp = []
+        minp: list[str] | None = []
         for supply in (False, True):
             _incl, excl = alg._inclusion_exclusion_bounds(pairs, supply=supply)  # pylint: disable=protected-access
             avail = {p.battery.component_id: q("1") for p in pairs}
-            ratios, _tot = alg._compute_battery_availability_ratio(pairs, avail, excl)  # pylint: disable=protected-access
+            try:
+                ratios, _tot = alg._compute_battery_availability_ratio(pairs, avail, excl)  # pylint: disable=protected-access
+            except ValueError:
+                # "All batteries have capacity 0.": the algorithm refuses to form group ratios (and min powers) when
+                # the participating sets have no capacity at all; anything else is the caller's business
+                if sum(p.battery.capacity for p in pairs) != 0:
+                    raise
+                minp = None
+                out["total_capacity_zero"] = True
+                break
             minp.append(out_rat(sum(r.min_power for r in ratios)))
         out["minp"] = minp
     else:
@@ -390,6 +399,17 @@ def gen_c17_groups(rng: random.Random, consistent: bool, incomplete: float) -> l
             ni += 1
             invs.append({"id": 100 + ni, "has": True, **gen_component_bounds(rng, consistent)})
         groups.append({"bats": bats, "invs": invs})
+    r_cap = rng.random()
+    if r_cap < 0.14:  # batteries reporting capacity == 0 (complete, NaN-free data; the aggregated SoC of a set is undefined)
+        if r_cap < 0.04:                       # one battery
+            rng.choice([b for g in groups for b in g["bats"]])["cap"] = "0"
+        elif r_cap < 0.11:                     # every battery of one set (the others normal)
+            for b in rng.choice(groups)["bats"]:
+                b["cap"] = "0"
+        else:                                  # every battery of every set
+            for g in groups:
+                for b in g["bats"]:
+                    b["cap"] = "0"
     if rng.random() < 0.35:  # some batteries not working (whole sets drop out only when none of theirs works)
         for g in groups:
             for b in g["bats"]:
@@ -743,12 +763,39 @@ def run_c17_fullstack_adv(groups: list[dict]) -> Any:
         return loop().run_until_complete(scenario())
 
 
+def stream_ts(c: dict, k: int) -> int:
+    """Timestamp (seconds after T0) of the message component `c` sends at sample k: its own "ts" (histories with
+    repeated / equal / decreasing timestamps) or a fresh one."""
+    return c["ts"] if "ts" in c else 100 * (k + 1) + c["id"] % 50
+
+
+def stream_wait(groups: list[dict], k: int) -> Fraction:
+    """Virtual seconds between the messages of sample k and the reading: "wait" of the first battery set, else 1.5 / 0.4."""
+    if groups and "wait" in groups[0]:
+        return Fraction(groups[0]["wait"])
+    return Fraction(3, 2) if k == 0 else Fraction(2, 5)
+
+
+def stream_silence(steps: list[list[dict]], k: int) -> Fraction:
+    """Input only: the longest time, at the reading of sample k, since a component last sent a message ("mute" = it
+    sends nothing at that sample).  From 2 s on (MAX_BATTERY_DATA_AGE_SEC) the pool's fetcher counts it as silent."""
+    t = Fraction(0)
+    last: dict[int, Fraction] = {}
+    for j in range(k + 1):
+        for c in [x for part in flat(steps[j]) for x in part]:
+            if c["has"] and not c.get("mute"):
+                last[c["id"]] = t
+        t += stream_wait(steps[j], j)
+    return max((t - v for v in last.values()), default=Fraction(0))
+
+
 def run_c17_stream(steps: list[list[dict]]) -> list[Any]:
     """The bounds STREAMED by one real `SendOnUpdate(PowerBoundsCalculator)` (its own asyncio tasks, virtual clock,
     mocked API channels — what `BatteryPool._system_power_bounds` is made of) along a HISTORY of component data:
     `steps[k]` = the battery sets with the data every component reports at sample k (same topology in every step).
-    At every sample each component sends its current message (changed or not, with the sample's timestamp); after the
-    update interval has elapsed the latest streamed value is read.  Returns one reading per step (`bounds_json`,
+    At every sample each component that is not muted sends its current message (changed or not; stamped with the
+    sample's fresh timestamp, or with its own "ts" — equal to / older than its previous one); after the step's wait
+    has elapsed the latest streamed value is read.  Returns one reading per step (`bounds_json`,
     `None` = bounds absent, "nothing-streamed")."""
     from frequenz.client.microgrid import Component, ComponentCategory, Connection, InverterType
     from frequenz.sdk.timeseries.battery_pool._methods import SendOnUpdate
@@ -777,14 +824,14 @@ def run_c17_stream(steps: list[list[dict]]) -> list[Any]:
             for k, gs in enumerate(steps):
                 bs, is_ = flat(gs)
                 for c in bs:
-                    if c["has"]:
-                        await mg.send(battery_msg({**c, "ts": 100 * (k + 1) + c["id"] % 50}))
+                    if c["has"] and not c.get("mute"):
+                        await mg.send(battery_msg({**c, "ts": stream_ts(c, k)}))
                 for c in is_:
-                    if c["has"]:
-                        await mg.send(inverter_msg({**c, "ts": 100 * (k + 1) + c["id"] % 50}))
+                    if c["has"] and not c.get("mute"):
+                        await mg.send(inverter_msg({**c, "ts": stream_ts(c, k)}))
                 # first sample: wait for WAIT_FOR_COMPONENT_DATA_SEC; later ones: a few update intervals (< the
-                # fetchers' 2 s time-out, so no component counts as silent)
-                await asyncio.sleep(1.5 if k == 0 else 0.4)
+                # fetchers' 2 s time-out, so no component counts as silent) unless the step asks for a longer pause
+                await asyncio.sleep(float(stream_wait(gs, k)))
                 rx = sou.new_receiver()  # `resend_latest`: starts with the latest streamed value
                 try:
                     sb = await asyncio.wait_for(rx.receive(), 0.01)
